@@ -315,7 +315,8 @@ func allCases(rng *rand.Rand, quick bool) []Case {
 						case mode == "idle":
 							waits = []int{1300, 2600}
 						case l > 5*time.Second:
-							waits = []int{600, 1700}
+							// 4.6 s: longer than 2^32 ns, a waiting time kept in 32 bits of nanoseconds has wrapped
+							waits = []int{600, 1700, 4600}
 						default:
 							ms := int(l / time.Millisecond)
 							waits = []int{ms + 900}
@@ -343,7 +344,7 @@ func allCases(rng *rand.Rand, quick bool) []Case {
 		seen := map[string]bool{}
 		var keep, rest []Case
 		for _, c := range cs {
-			k := fmt.Sprintf("%s|%s|%d|%v|%v", c.Pub, c.Mode, c.SubV, c.C == 0, time.Duration(c.WaitMs)*time.Millisecond > c.lifetime())
+			k := fmt.Sprintf("%s|%s|%d|%v|%v|%v", c.Pub, c.Mode, c.SubV, c.C == 0, time.Duration(c.WaitMs)*time.Millisecond > c.lifetime(), c.WaitMs > 4300 && c.E >= 10)
 			if !seen[k] {
 				seen[k] = true
 				keep = append(keep, c)
@@ -351,8 +352,8 @@ func allCases(rng *rand.Rand, quick bool) []Case {
 				rest = append(rest, c)
 			}
 		}
-		if len(keep) > 64 {
-			keep = keep[:64]
+		if len(keep) > 80 {
+			keep = keep[:80]
 		}
 		return keep
 	}
